@@ -74,7 +74,7 @@ func sectionSig(secs []fwgen.SevSection) string {
 	return fmt.Sprintf("n=%d multi=%d k1=%d k4=%d", len(secs), multi, kinds[1], kinds[4])
 }
 
-const validRule = "generated valid images (1-16 pages, deterministic pseudo-random body, GUID table with entries in drawn order incl. unknown fillers, SEV metadata at a drawn position) with 3-12 SEV sections (kinds 1-4, exactly one CPUID and one secrets, multi-page ranges, addresses anywhere in the 32-bit space incl. ranges ending exactly at 4 GiB, declared order shuffled), any reset-block address, vCPUs in {1..240 GCE counts, 241-512}, Milan/Genoa; oracle: sev.LaunchDigest == independent reference (own PAGE_INFO chain, own VMSA encoder with hard-coded reset state), a second call gives the same bytes, image SHA-256 unchanged, sev.UnsignedSnp lists exactly that digest; non-trivial = >=4 sections or a multi-page section or vcpus>=2 or Genoa; distinct = (pages, section signature, order hash, vcpus, product)"
+const validRule = "generated valid images (1-16 pages, deterministic pseudo-random body, GUID table with entries in drawn order incl. unknown fillers, SEV metadata at a drawn position) with 3-12 SEV sections (kinds 1-4, exactly one CPUID and one secrets, multi-page ranges, addresses anywhere in the 32-bit space incl. ranges ending exactly at 4 GiB, declared order shuffled), any reset-block address, vCPUs in {1..240 GCE counts, 241-512}, Milan/Genoa; oracle: sev.LaunchDigest == independent reference (own PAGE_INFO chain, own VMSA encoder with hard-coded reset state), a second call gives the same bytes, image SHA-256 unchanged, sev.UnsignedSnp lists exactly that digest for a single-count request, and for an all-counts request (1 case in 16) every listed count equals the reference for that count; non-trivial = >=4 sections or a multi-page section or vcpus>=2 or Genoa; distinct = (pages, section signature, order hash, vcpus, product)"
 
 func TestValidImagesAgreeWithReference(t *testing.T) {
 	const name = "valid/differential"
@@ -129,6 +129,27 @@ func TestValidImagesAgreeWithReference(t *testing.T) {
 				ev.Violation(t, "C04/unsigned-snp-differs", "UnsignedSnp measurements %v, want {%d: %x}", snp.Measurements, vcpus, want)
 				return
 			}
+		}
+		if rapid.IntRange(0, 15).Draw(t, "alsoAllCounts") == 0 {
+			// an all-counts request (LaunchVmsas unset): every listed count carries the digest of a
+			// launch with exactly that many VMSAs, independently of the other counts generated with it
+			snp, uerr := sev.UnsignedSnp(img, &sev.SnpEndorsementRequest{Product: product})
+			if uerr != nil {
+				ev.Violation(t, "C04/unsigned-snp-error", "UnsignedSnp (all counts) failed: %v", uerr)
+				return
+			}
+			if len(snp.Measurements) < 2 {
+				ev.Violation(t, "C04/unsigned-snp-differs", "all-counts UnsignedSnp lists %d measurements", len(snp.Measurements))
+				return
+			}
+			for n, d := range snp.Measurements {
+				wn, _ := refsnp.Digest(img, toRef(l.Sev), l.ResetAddr, int(n), bits, false)
+				if !bytes.Equal(d, wn) {
+					ev.Violation(t, "C04/unsigned-snp-differs/all-counts", "all-counts UnsignedSnp entry for %d VMSAs is %x, reference %x (%s sections=%+v)", n, d, wn, pname, l.Sev)
+					return
+				}
+			}
+			ev.Class(name, "all-counts-request")
 		}
 		nontrivial := len(l.Sev) >= 4 || vcpus >= 2 || pname == "genoa"
 		for _, s := range l.Sev {
